@@ -57,7 +57,9 @@ def _mk_dataK(U, name, iR, eig_log, parallel=True, tetra=True):
     me.select_K = rnp.array([0])
     me.select_B = rnp.arange(NW)
     me.E_K = None
-    me.phonon_freq_from_square = lambda E: E
+    me.phonon_freq_from_square = _ph
+    me.grid = _Obj()
+    me.grid.dense = rnp.array([7, 11, 13])            # deliberately unrelated to the K-point's own cell
     me.select_bands = lambda E: None
     me.Kpoint = _Obj()
     me.Kpoint.dK_fullBZ = rnp.array([sreal("dK0"), sreal("dK1"), sreal("dK2")], dtype=object)
@@ -68,8 +70,21 @@ def _mk_dataK(U, name, iR, eig_log, parallel=True, tetra=True):
 def _np(eig_log):
     def eigvalsh(M):
         eig_log.append(M)
-        return rnp.zeros(M.shape[:-1])
+        n = len(eig_log)
+        out = rnp.zeros(M.shape[:-1])
+        for idx in rnp.ndindex(*out.shape):
+            out[idx] = 10.0 * n + idx[-1] + 0.125 * idx[0]          # distinct, recognisable eigenvalues of the n-th diagonalisation
+        return out
     return Shim(overrides={"linalg.eigvalsh": eigvalsh})
+
+
+def _ph(E):
+    """stand-in for phonon_freq_from_square: strictly monotone and NOT idempotent, so applying it twice (or never) is visible"""
+    return E * E + 1.0
+
+
+def _eigval(n, ik, ib):
+    return 10.0 * n + ib + 0.125 * ik
 
 
 def _phase_parallel(R, s):
@@ -121,6 +136,8 @@ def _r_par(U):
         _check_calls(U, me, "R", CORN_P, _phase_parallel)
         U.ensure("eigenvalues are taken of exactly the transformed matrices, corner by corner", len(eig) == 8 and all(eig[i] is not None for i in range(8)))
         U.ensure("result shape (nk,2,2,2,nb)", tuple(res.shape) == (1, 2, 2, 2, NW))
+        U.ensure("corner (ix,iy,iz) holds the eigenvalues of ITS matrix, with the phonon/electron energy map applied exactly once",
+                 all(abs(res[0, c[0], c[1], c[2], b] - _ph(_eigval(n + 1, 0, b))) < 1e-12 for n, c in enumerate(CORN_P) for b in range(NW)))
     U.run(body, check_feasible=False)
     U.external("rvec.R_to_k(X): sum_R X[R] ph(R.k) with this rvec's own R-vectors (contract of C02)")
     U.external("np.exp(2j*pi*x) = ph(x); ph(x)ph(y)=ph(x+y); 1/ph(x)=ph(-x)")
@@ -140,6 +157,8 @@ def _r_tet(U):
         res = f(me)
         _check_calls(U, me, "R", [0, 1, 2, 3], _phase_tetra)
         U.ensure("result shape (nk,4,nb)", tuple(res.shape) == (1, 4, NW))
+        U.ensure("vertex iv holds the eigenvalues of ITS matrix, with the phonon/electron energy map applied exactly once",
+                 all(abs(res[0, iv, b] - _ph(_eigval(iv + 1, 0, b))) < 1e-12 for iv in range(4) for b in range(NW)))
     U.run(body, check_feasible=False)
 
 
@@ -189,6 +208,9 @@ def _soc_unit(kind, has_soc, nspin):
             # assembly: the matrix diagonalised for corner c has the up result at [::2,::2], the down result at [1::2,1::2]
             U.ensure("one diagonalisation per corner", len(eig) == len(corners))
             import z3
+            flat = res.reshape(1, len(corners), 2 * NW)
+            U.ensure("corner c holds the eigenvalues of ITS assembled matrix, energy map applied exactly once",
+                     all(abs(flat[0, n, b] - _ph(_eigval(n + 1, 0, b))) < 1e-12 for n in range(len(corners)) for b in range(2 * NW)))
             for ci, M in enumerate(eig[:len(corners)]):
                 upk = up.calls[ci if nspin == 2 else 2 * ci]
                 dnk = dn.calls[ci if nspin == 2 else 2 * ci + 1]
@@ -292,6 +314,9 @@ def _kp_unit(kind):
                         t += 1
             U.ensure("Ham is evaluated at k + v for every k-point and corner, v = (s - 1/2) dK resp. the tetrahedron vertex", ok)
             U.ensure("one diagonalisation per corner", len(eig) == len(corners))
+            flat = res.reshape(2, len(corners), NW)
+            U.ensure("corner c holds the eigenvalues of ITS matrix, energy map applied exactly once",
+                     all(abs(flat[ik, n, b] - _ph(_eigval(n + 1, ik, b))) < 1e-12 for ik in range(2) for n in range(len(corners)) for b in range(NW)))
         U.run(body, check_feasible=False)
 
 
